@@ -293,8 +293,15 @@ def render(td, rng=None, canonical=False, spell=None, vis="pub ", strip=False, e
         if canonical or rng is None or not FOREIGN_ATTRS or rng.random() >= (0.3 if t else 0.04):
             return t
         lines = t.splitlines(True)
+        pool = list(FOREIGN_ATTRS)
+        if (ind == "" and td.kind != "union") or (ind == "    " and td.kind == "enum"):
+            # legal on structs, enums and variants only; without effect inside the defining crate
+            pool += ["#[non_exhaustive]", "#[non_exhaustive]"]
         for _ in range(rng.choice([1, 1, 2])):
-            lines.insert(rng.randint(0, len(lines)) if rng.random() < 0.5 else 0, ind + rng.choice(FOREIGN_ATTRS) + "\n")
+            a = rng.choice(pool)
+            if a == "#[non_exhaustive]":
+                pool = [x for x in pool if x != a]
+            lines.insert(rng.randint(0, len(lines)) if rng.random() < 0.5 else 0, ind + a + "\n")
         return "".join(lines)
     out = []
     if td.other_derives and not strip:
